@@ -26,6 +26,9 @@ CHECKS = {
  "C13": ("model_checking", "explicit enumeration of all operation histories (add content, authorize/query, reset) up to depth 2-3 on the real authorizer with a differential oracle",
          "All histories of 2 rounds over 24 contents x 3 actions x 4 tokens (and 3 rounds: over an 8-content sub-alphabet in quick, all 24 in thorough) are executed on one reused authorizer with Reset between rounds; the last round's Authorize outcome, failed checks and Query panel must equal those of a fresh authorizer given only that round's content. Every explored history is a run of the implementation.",
          "Differential oracle against a fresh authorizer. Histories longer than 3 rounds are outside the bound.", "DESIGN.md §4-C13", "ssx"),
+ "C01": ("model_checking", "explicit-state BFS of an attacker (Dolev-Yao) model over envelope edits, every state verified on the real code against a reference chain-validity predicate",
+         "The honest pool (56 library-made tokens: 2 roots x {P,Q}^1..3 x sealed/unsealed) is split by an independent decoder into a component universe; the attacker's single edits (field substitution between blocks and tokens, flipped/truncated/extended fields, block delete/duplicate/insert/swap/truncate, proof replacement incl. seals and signatures computable with held secrets, re-keying under an attacker root, key id) are applied breadth-first to depth 1 on the full pool and depth 2 (quick: sub-pool; thorough: full pool, plus depth 3 with structural third edit) with deduplication on the serialized envelope. Every reached envelope is given to Unmarshal+AuthorizerFor under three roots and compared with the specification's chain walk re-implemented over the independently decoded envelope, in both directions. Plus every single-bit flip, prefix and byte deletion of pool tokens (safety direction).",
+         "Trusted: crypto/ed25519 (unforgeability is assumed, not searched), internal/wire's transcription of the schema. Completeness (valid => accepted) is asserted only for envelopes whose payloads are unmodified library-made blocks.", "DESIGN.md §4-C01", "ssx"),
 }
 PENDING = "check not built yet in this revision (work in progress; see DESIGN.md §4 for the planned bounded-exhaustive check)"
 def main():
